@@ -9,7 +9,7 @@
    [ForallOrdPairs ev_ok trace] is the property for one run; every theorem
    quantifies over ALL runs (all interleavings, counts, reported keys). *)
 From Coq Require Import List NArith Bool Sorted.
-From SW Require Import model.Seq proof.SeqProofs.
+From SW Require Import model.Seq proof.SeqProofs proof.SeqSnow.
 Import ListNotations.
 Local Open Scope N_scope.
 
@@ -49,11 +49,64 @@ Theorem c13_memory_failover : forall ops1 ops2 k,
 Proof. exact mem_failover_ok. Qed.
 Print Assumptions c13_memory_failover.
 
+(* per step, no hypothesis: the run up to the first wrapping addition satisfies
+   the property (finding 3 is what happens afterwards) *)
+Theorem c13_memory_prefix : forall ops,
+  ForallOrdPairs ev_ok (somes (snd (mem_run mem_init (firstn (mem_fit_len mem_init ops) ops)))) /\
+  snd (mem_run mem_init (firstn (mem_fit_len mem_init ops) ops)) = firstn (mem_fit_len mem_init ops) (snd (mem_run mem_init ops)) /\
+  (mem_fits mem_init ops = true -> mem_fit_len mem_init ops = length ops).
+Proof. exact mem_prefix_ok. Qed.
+Print Assumptions c13_memory_prefix.
+
+(* leader change, per pair (implies c13_memory_failover): a range of the old
+   leader with no key above the k of the new leader's first heartbeat is never
+   met again by the new leader; no hypothesis on the other ranges *)
+Theorem c13_memory_failover_pair : forall ops1 ops2 k,
+  mem_fits mem_init ops1 = true ->
+  mem_fits mem_init (MSetMax k :: ops2) = true ->
+  forall e1 e2, In e1 (somes (snd (mem_run mem_init ops1))) ->
+                In e2 (somes (snd (mem_run mem_init (MSetMax k :: ops2)))) ->
+                fo_unwritten k e1 = false -> ranges_ok e1 e2.
+Proof. exact mem_failover_pair. Qed.
+Print Assumptions c13_memory_failover_pair.
+
+(* finding 4: the heartbeat carries the largest key WRITTEN on the volume server
+   (a key that was handed out, here 2), not the largest key handed out (5):
+   keys assigned by the old leader and not yet written are handed out again *)
+Theorem c13_memory_failover_written_refuted :
+  exists ops1 ops2 k m s c,
+    mem_fits mem_init ops1 = true /\ mem_fits mem_init (MSetMax k :: ops2) = true /\
+    In (Ret m s c) (somes (snd (mem_run mem_init ops1))) /\ in_range k s c /\
+    exists e1 e2, In e1 (somes (snd (mem_run mem_init ops1))) /\
+                  In e2 (somes (snd (mem_run mem_init (MSetMax k :: ops2)))) /\ ~ ranges_ok e1 e2.
+Proof. exact mem_failover_written_refuted. Qed.
+Print Assumptions c13_memory_failover_written_refuted.
+
 (* ---------------- etcd sequencer: partial + refuted ---------------- *)
 (* any number n of masters sharing the etcd counter; every KeysAPI call is a
    separate step; calls may fail or lose their answer; masters may restart.
-   Key ranges never overlap unless an etcd error made NextFileId return 0. *)
-Theorem c13_etcd_ranges : forall n sched,
+   The Go arithmetic is uint64; [etcd_fits]: no operation of the run wraps.
+
+   Per pair, no whole-trace hypothesis: any two events of a run that carry
+   neither tag (MRetErr: NextFileId returned 0 after an etcd error; MMax .. false:
+   a SetMax that did not move the sequence past k) satisfy the property. *)
+Theorem c13_etcd_pairs : forall n sched, etcd_fits n sched = true ->
+  ForallOrdPairs pair_ok (etcd_trace n sched).
+Proof. exact etcd_pairs_ok. Qed.
+Print Assumptions c13_etcd_pairs.
+
+(* per step, no hypothesis at all: the run up to the first step at which a
+   uint64 operation wraps satisfies the per-pair property, and its outputs are
+   the corresponding prefix of the whole run's outputs (all of it when the run fits) *)
+Theorem c13_etcd_prefix : forall n sched,
+  ForallOrdPairs pair_ok (etcd_trace n (firstn (etcd_fit_len n sched) sched)) /\
+  snd (erun (einit n) (firstn (etcd_fit_len n sched) sched)) = firstn (etcd_fit_len n sched) (snd (erun (einit n) sched)) /\
+  (etcd_fits n sched = true -> etcd_fit_len n sched = length sched).
+Proof. exact etcd_prefix_ok. Qed.
+Print Assumptions c13_etcd_prefix.
+
+(* Key ranges never overlap unless an etcd error made NextFileId return 0. *)
+Theorem c13_etcd_ranges : forall n sched, etcd_fits n sched = true ->
   etcd_err_trigger (etcd_trace n sched) = false ->
   ForallOrdPairs ranges_ok (map vis (etcd_trace n sched)).
 Proof. exact etcd_ranges_ok. Qed.
@@ -61,7 +114,7 @@ Print Assumptions c13_etcd_ranges.
 
 (* the whole property, when moreover every SetMax(k) was harmless: k below
    currentSeqId, or the etcd counter was already above k *)
-Theorem c13_etcd_partial : forall n sched,
+Theorem c13_etcd_partial : forall n sched, etcd_fits n sched = true ->
   etcd_err_trigger (etcd_trace n sched) = false ->
   etcd_setmax_trigger (etcd_trace n sched) = false ->
   ForallOrdPairs ev_ok (map vis (etcd_trace n sched)).
@@ -70,9 +123,9 @@ Print Assumptions c13_etcd_partial.
 
 (* finding 0: SetMax(k), k > maxSeqId, then NextFileId hands out k itself *)
 Theorem c13_etcd_refuted :
-  exists n sched, etcd_err_trigger (etcd_trace n sched) = false /\
+  exists n sched, etcd_fits n sched = true /\ etcd_err_trigger (etcd_trace n sched) = false /\
                   ~ ForallOrdPairs ev_ok (map vis (etcd_trace n sched)).
-Proof. exact etcd_setmax_refuted. Qed.
+Proof. exact etcd_setmax_refuted_fit. Qed.
 Print Assumptions c13_etcd_refuted.
 
 (* finding 0, second form: SetMax(k) with currentSeqId <= k <= maxSeqId is ignored *)
@@ -85,10 +138,29 @@ Print Assumptions c13_etcd_ignored_refuted.
 
 (* finding 2: an etcd error makes NextFileId return key 0, every time *)
 Theorem c13_etcd_err_refuted :
-  exists n sched, etcd_setmax_trigger (etcd_trace n sched) = false /\
+  exists n sched, etcd_fits n sched = true /\ etcd_setmax_trigger (etcd_trace n sched) = false /\
                   ~ ForallOrdPairs ev_ok (map vis (etcd_trace n sched)).
-Proof. exact etcd_err_refuted. Qed.
+Proof. exact etcd_err_refuted_fit. Qed.
 Print Assumptions c13_etcd_err_refuted.
+
+(* finding 3: [etcd_fits] is needed.  The count of an assign request is an
+   unchecked uint64: NextFileId(2^64-1) wraps currentSeqId+count below maxSeqId,
+   no batch is fetched, currentSeqId moves backwards, key 1 is handed out twice;
+   neither of the other two triggers fires *)
+Theorem c13_etcd_wrap_refuted :
+  etcd_err_trigger (etcd_trace 1 wit_wrap) = false /\
+  etcd_setmax_trigger (etcd_trace 1 wit_wrap) = false /\
+  map vis (etcd_trace 1 wit_wrap) = [Ret 0 1 1; Ret 0 2 18446744073709551615; Ret 0 1 1] /\
+  etcd_fit_len 1 wit_wrap = 7%nat /\
+  ~ ForallOrdPairs ev_ok (map vis (etcd_trace 1 wit_wrap)).
+Proof. exact etcd_wrap_refuted. Qed.
+Print Assumptions c13_etcd_wrap_refuted.
+
+(* finding 3, second form: count = 2^64-500 makes reqSteps 0 and NextFileId returns key 0 *)
+Theorem c13_etcd_wrap_zero_steps :
+  map vis (etcd_trace 1 (boot 0 ++ [(0%nat, ANext 18446744073709551116)])) = [Ret 0 0 18446744073709551116].
+Proof. exact etcd_wrap_zero_steps. Qed.
+Print Assumptions c13_etcd_wrap_zero_steps.
 
 (* ---------------- snowflake sequencer: partial + refuted ---------------- *)
 (* several masters with distinct 10-bit node ids, monotone clocks; holds when
@@ -107,6 +179,32 @@ Theorem c13_snowflake_refuted :
                      ~ ForallOrdPairs ev_ok (somes (snd (sf_run nids (sf_init nids) calls))).
 Proof. exact sf_count_refuted. Qed.
 Print Assumptions c13_snowflake_refuted.
+
+(* per pair, without the hypothesis that the node ids are pairwise different:
+   two ids of one node, or of two nodes with different 10-bit node ids, never
+   coincide (finding 5 is exactly the pairs left out) *)
+Theorem c13_snowflake_pairs : forall nids calls,
+  sf_ids_ok nids = true ->
+  sf_clock_ok nids (sf_init nids) calls = true ->
+  sf_count_trigger calls = false ->
+  ForallOrdPairs (sf_pair_ok nids) (somes (snd (sf_run nids (sf_init nids) calls))).
+Proof. exact sf_pairs_ok. Qed.
+Print Assumptions c13_snowflake_pairs.
+
+(* finding 5: distinct node ids are needed; the node id is hash(address) & 0x3ff *)
+Theorem c13_snowflake_needs_distinct_nodes :
+  exists nids calls, forallb (fun x => x <? 1024) nids = true /\
+                     sf_clock_ok nids (sf_init nids) calls = true /\ sf_count_trigger calls = false /\
+                     ~ ForallOrdPairs ev_ok (somes (snd (sf_run nids (sf_init nids) calls))).
+Proof. exact sf_collision_refuted. Qed.
+Print Assumptions c13_snowflake_needs_distinct_nodes.
+
+(* the 12-bit roll-over inside one millisecond takes the spin branch *)
+Example c13_snowflake_rollover :
+  sf_generate 5 {| sf_time := 1000; sf_step := 4095 |} 1000 1001 =
+  ({| sf_time := 1001; sf_step := 0 |}, sf_id 1001 5 0).
+Proof. exact sf_rollover. Qed.
+Print Assumptions c13_snowflake_rollover.
 
 (* ---------------- volume ids: full under the growth lock ---------------- *)
 (* any interleaving of NextVolumeId (read max / raft apply, which may fail) and
@@ -152,12 +250,20 @@ Example c13_memory_example :
   mem_fits mem_init ops = true /\
   somes (snd (mem_run mem_init ops)) = [Ret 0 1 3; Max 0 10; Ret 0 11 2; Max 0 5; Ret 0 13 1].
 Proof. exact mem_example. Qed.
+Print Assumptions c13_memory_example.
+
+Example c13_etcd_example_fits :
+  etcd_fits 1 wit_setmax = true /\ etcd_fits 1 wit_setmax_ignored = true /\ etcd_fits 1 wit_err = true /\
+  etcd_fits 2 ex_etcd = true.
+Proof. exact etcd_wits_fit. Qed.
+Print Assumptions c13_etcd_example_fits.
 
 Example c13_etcd_example :
   etcd_err_trigger (etcd_trace 2 ex_etcd) = false /\
   etcd_setmax_trigger (etcd_trace 2 ex_etcd) = false /\
   map vis (etcd_trace 2 ex_etcd) = [Ret 1 1 3; Ret 0 501 2; Max 1 2; Ret 1 4 1; Ret 0 1501 5].
 Proof. exact etcd_example. Qed.
+Print Assumptions c13_etcd_example.
 
 Example c13_snowflake_example :
   let calls := [ {| sc_node := 0; sc_count := 1; sc_now := 1000; sc_spin := 1001 |};
@@ -169,8 +275,10 @@ Example c13_snowflake_example :
   somes (snd (sf_run [5; 6] (sf_init [5; 6]) calls)) =
     [Ret 0 4194324480 1; Ret 1 4194328576 1; Ret 0 4194324481 1; Ret 0 4202713088 0].
 Proof. exact sf_example. Qed.
+Print Assumptions c13_snowflake_example.
 
 Example c13_volume_example :
   let sched := [VHb 3; VRead 0; VHb 2; VApply 0 true; VRead 1; VApply 1 false; VRead 1; VApply 1 true] in
   vlocked vinit sched = true /\ vfits vinit sched = true /\ rets (snd (vrun vinit sched)) = [4; 5].
 Proof. exact vol_example. Qed.
+Print Assumptions c13_volume_example.
